@@ -489,3 +489,24 @@ def b_box(B):
         except Exception as e:
             ok, detail = False, repr(e)
         B.case((ns, w, o), ok, detail=None if ok else f"native contract failed for (ns, nswin, overlap)=({ns},{w},{o})", inputs={"ns": ns, "nswin": w, "overlap": o})
+    # the same triples held in other number types (whole-number floats such as fs * 0.1, narrow NumPy integers): the same windows as with python ints
+    import itertools
+    for ns, w, o in ((400, 64, 16), (30000, 8192, 128), (1000, 100, 0), (250, 100, 20), (50, 100, 10), (100, 100, 99)):
+        ref = list(WG(ns, w, o).firstlast)
+        for name, conv in (("float", float), ("int16", np.int16), ("uint16", np.uint16), ("int32", np.int32), ("uint8 window", None)):
+            try:
+                if conv is None:
+                    if w > 255 or o > 255:
+                        continue
+                    args = (np.uint16(ns), np.uint8(w), np.uint8(o))
+                else:
+                    args = (conv(ns), conv(w), conv(o))
+                wg = WG(*args)
+                fl = list(itertools.islice(wg.firstlast, len(ref) + 3))          # (bounded: arithmetic that wraps would never reach the end)
+                ok = [(int(a), int(b)) for a, b in fl] == ref and wg.nwin == len(ref)
+                sl = list(itertools.islice(wg.slice, len(ref) + 3))
+                ok = ok and [len(np.ones(ns)[s_]) for s_ in sl] == [b - a for a, b in ref]
+                detail = None if ok else {"windows": [(float(a), float(b)) for a, b in fl[:4]], "expected": ref[:4], "nwin": int(wg.nwin)}
+            except Exception as e:
+                ok, detail = False, repr(e)[:160]
+            B.case(("number types", name, ns, w, o), ok, detail=detail, inputs={"ns": ns, "nswin": w, "overlap": o, "held_as": name})
